@@ -969,6 +969,41 @@ def stage_log_edges(ctx, stats):
                 if delivered != want or logged != delivered:
                     common.report(ctx, 'c11/%s/small-reads' % tr, '%s (%s mode), reads of %d: delivered %d characters, logfile_read has %d of them (child wrote %d)' % (
                         tr, 'unicode' if enc else 'bytes', size, len(delivered), len(logged), len(want)), dict(stage='stage_log_edges', transport=tr, encoding=enc, size=size))
+    # (c) a stream that ends inside a character, read to its end by expect(EOF): whatever text the caller is handed (before) is what the log holds
+    for tr in ('fd', 'socket', 'popen'):
+        for errors in ('strict', 'replace', 'ignore', 'backslashreplace'):
+            raw = 'ready> caf'.encode() + b'\xc3'
+            rec = S.RecLog()
+            a_ = b_ = None
+            if tr == 'fd':
+                r, w = os.pipe(); os.write(w, raw); os.close(w)
+                p = fdpexpect.fdspawn(r, encoding='utf-8', codec_errors=errors, timeout=3)
+            elif tr == 'socket':
+                a_, b_ = socket.socketpair(); b_.sendall(raw); b_.close()
+                p = socket_pexpect.SocketSpawn(a_, encoding='utf-8', codec_errors=errors, timeout=3)
+            else:
+                p = popen_spawn.PopenSpawn([common.PY, '-c', 'import sys; sys.stdout.buffer.write(%r); sys.stdout.flush()' % raw], encoding='utf-8', codec_errors=errors, timeout=3)
+            p.logfile_read = rec
+            try:
+                p.expect(pexpect.EOF)
+                handed = p.before
+            except Exception as e:      # noqa
+                handed = 'EXC:' + type(e).__name__
+            finally:
+                try:
+                    if tr == 'popen':
+                        p.proc.stdout.close(); p.proc.wait()
+                    else:
+                        p.close()
+                    if a_ is not None:
+                        a_.close()
+                except Exception:
+                    pass
+            logged = ''.join(e[1] for e in rec.ev if e[0] == 'w')
+            stats['log_edges'] = stats.get('log_edges', 0) + 1
+            if handed != logged:
+                common.report(ctx, 'c11/%s/cut-at-eof' % tr, '%s (utf-8, %s): the stream %r ended inside a character; expect(EOF) handed the caller %r, logfile_read holds %r' % (
+                    tr, errors, raw, handed, logged), dict(stage='stage_log_edges', transport=tr, errors=errors))
     for enc in (None, 'utf-8'):
         a, b = socket.socketpair()
         a.settimeout(0.2)
